@@ -176,6 +176,11 @@ func redactCommand(cmd *orderedmap.OrderedMap[string, any], shouldEagerRedact bo
 			cmd.Set("updates", redactArrayValues(updatesArr, shouldEagerRedact, false, false, []string{}))
 		}
 	}
+	if deletes, ok := cmd.Get("deletes"); ok {
+		if deletesArr, ok := deletes.([]any); ok {
+			cmd.Set("deletes", redactArrayValues(deletesArr, shouldEagerRedact, false, false, []string{}))
+		}
+	}
 	if update, ok := cmd.Get("q"); ok {
 		if updateMap, ok := update.(*orderedmap.OrderedMap[string, any]); ok {
 			cmd.Set("q", redactQueryValues(updateMap, shouldEagerRedact, false, nil, []string{}))
